@@ -54,7 +54,7 @@ class Holder:
 
 
 def _double(v):
-    return v * 2
+    return ("doubled", None) if v is None else v * 2  # total over everything a target may hold, incl. None
 
 
 def host_class(cfg):
@@ -76,7 +76,7 @@ def host_class(cfg):
         if cfg["host"] == "plain":
             cls = type("P", (), {"al": alias})
         else:
-            ns = {"__annotations__": {"x": int, "child": Any, "d": Dict[str, Any], "al": Union[int, List[int]]}, "al": alias}
+            ns = {"__annotations__": {"x": Union[int, None], "child": Any, "d": Dict[str, Any], "al": Union[int, List[int], None]}, "al": alias}
             cls = spec_class(bootstrap=True)(type("S", (), ns))
     _CLS[key] = (cls, alias)
     return _CLS[key]
@@ -142,7 +142,7 @@ def real_target_parent(obj, segs):
 
 
 CLEAN = (AttributeError, KeyError, TypeError, ValueError)
-LETTERS = [["read"], ["write", 5], ["write", "zz"], ["delete"], ["wtarget", 7], ["dtarget"], ["droot"], ["with_alias", 4], ["with_target", 6],
+LETTERS = [["read"], ["write", 5], ["write", "zz"], ["write", None], ["write", 0], ["delete"], ["wtarget", 7], ["dtarget"], ["droot"], ["with_alias", 4], ["with_target", 6],
            ["deepcopy"], ["mutate_last"]]
 
 
@@ -222,7 +222,7 @@ def run_seq(ctx, case):
             continue
         elif name == "write":
             v = op[1]
-            bad = spec and not isinstance(v, int)
+            bad = spec and not (isinstance(v, int) or v is None)  # the alias is annotated Union[int, List[int], None]
             (rk, rv), w = do(lambda: setattr(obj, "al", v))
             if bad:
                 if rk != "raise" or not isinstance(rv, TypeError):
